@@ -152,3 +152,91 @@ Example C06_bytes_on_corrupt_buffers :
   build_array_st [enc c06_b; [96; 0; 0; 0]] [9] = ([9; 0; 0; 0; 0; 80; 0; 0; 37], Err EOther) /\
   build_array_st [[32; 0; 0; 0; 64]] [9] = ([9; 0; 0; 0; 0], Panic).
 Proof. vm_compute. repeat split; reflexivity. Qed.
+(* ---- BEGIN edit2: byte-level statements for the offset-faithful walkers of EditWalk2.v ------------------------------
+   The walker reads header words, drives the iterators of iterator.rs over the input buffer, pushes raw
+   (entry, payload slice) pairs and nested builders, and calls build_into(buf).  On the encoding of a well-formed
+   value, for ANY prefix buf, it returns buf ++ the encoding of the tree edit; a documented error is the same error
+   and appends nothing (res_map).  No decode, no normalise: numbers keep their representation. *)
+From JB Require Import TreeWf TreeWf2 EditWalk2 EditWalk2Proofs.
+
+(* inserting can grow the object past the 2^28-byte payload bound of an entry word: the result size is a hypothesis
+   (it also bounds the key length); see C06_object_insert_bytes_hyp_ok for an instance *)
+Theorem C06_object_insert_bytes : forall v x key upd buf, wfb v = true -> top_ok v -> wfb x = true -> top_ok x ->
+  (forall y, object_insert_t v key x upd = Ok y -> wf_size y = true) ->
+  object_insert_w (enc v) key (enc x) upd buf = res_map (fun y => buf ++ enc y) (object_insert_t v key x upd).
+Proof. exact object_insert_w_enc. Qed.
+Print Assumptions C06_object_insert_bytes.
+
+Theorem C06_object_delete_bytes : forall v ks buf, wfb v = true -> top_ok v ->
+  object_delete_w (enc v) ks buf = res_map (fun y => buf ++ enc y) (object_delete_t v ks).
+Proof. exact object_delete_w_enc. Qed.
+Print Assumptions C06_object_delete_bytes.
+
+Theorem C06_object_pick_bytes : forall v ks buf, wfb v = true -> top_ok v ->
+  object_pick_w (enc v) ks buf = res_map (fun y => buf ++ enc y) (object_pick_t v ks).
+Proof. exact object_pick_w_enc. Qed.
+Print Assumptions C06_object_pick_bytes.
+
+Theorem C06_strip_nulls_bytes : forall v buf, wfb v = true -> top_ok v ->
+  strip_nulls_w (enc v) buf = Ok (buf ++ enc (strip_nulls_t v)).
+Proof. exact strip_nulls_w_enc. Qed.
+Print Assumptions C06_strip_nulls_bytes.
+
+(* every key path; an index is any integer (in particular any i32) *)
+Theorem C06_delete_by_keypath_bytes : forall v ks buf, wfb v = true -> top_ok v ->
+  delete_by_keypath_w (enc v) ks buf = res_map (fun y => buf ++ enc y) (delete_by_keypath_t v ks).
+Proof. exact delete_by_keypath_w_enc'. Qed.
+Print Assumptions C06_delete_by_keypath_bytes.
+
+(* the results stay well-formed (shape and size), so the statements chain *)
+Theorem C06_strip_nulls_wf : forall v, wfb v = true -> wfb (strip_nulls_t v) = true.
+Proof. exact strip_nulls_wfb. Qed.
+Print Assumptions C06_strip_nulls_wf.
+Theorem C06_delete_by_keypath_wf : forall v ks y, wfb v = true -> delete_by_keypath_t v ks = Ok y -> wfb y = true.
+Proof. exact delete_by_keypath_wfb. Qed.
+Print Assumptions C06_delete_by_keypath_wf.
+
+(* non-vacuity: nested documents, nulls at several depths, a key path through index -1 into an object *)
+Definition ex_k (c : N) : list N := [c].
+Definition ex_one : value := VNum (NUInt 1).
+Definition ex_doc : value :=                      (* {"a":null,"b":[null,{"c":null,"d":1}],"e":{"f":null,"g":[{"h":null}]}} *)
+  VObj [(ex_k 97, VNull);
+        (ex_k 98, VArr [VNull; VObj [(ex_k 99, VNull); (ex_k 100, ex_one)]]);
+        (ex_k 101, VObj [(ex_k 102, VNull); (ex_k 103, VArr [VObj [(ex_k 104, VNull)]])])].
+Example C06_ex_doc_wf : wfb ex_doc = true /\ top_ok ex_doc.
+Proof. split; vm_compute; reflexivity. Qed.
+Example C06_ex_strip_nulls :
+  strip_nulls_w (enc ex_doc) [170; 187] =
+  Ok ([170; 187] ++ enc (VObj [(ex_k 98, VArr [VNull; VObj [(ex_k 100, ex_one)]]); (ex_k 101, VObj [(ex_k 103, VArr [VObj []])])])).
+Proof. vm_compute. reflexivity. Qed.
+Example C06_ex_delete_by_keypath :               (* b[-1].c : the last element of b is an object, its member c goes *)
+  delete_by_keypath_w (enc ex_doc) [KName (ex_k 98); KIndex (-1); KQuoted (ex_k 99)] [1] =
+  Ok ([1] ++ enc (VObj [(ex_k 97, VNull);
+                        (ex_k 98, VArr [VNull; VObj [(ex_k 100, ex_one)]]);
+                        (ex_k 101, VObj [(ex_k 102, VNull); (ex_k 103, VArr [VObj [(ex_k 104, VNull)]])])])).
+Proof. vm_compute. reflexivity. Qed.
+Example C06_ex_delete_by_keypath_miss :          (* b[-3] is out of range: the input is copied *)
+  delete_by_keypath_w (enc ex_doc) [KName (ex_k 98); KIndex (-3)] [1] = Ok ([1] ++ enc ex_doc)
+  /\ delete_by_keypath_w (enc ex_one) [KIndex 0] [1] = Err EInvalidJsonType.
+Proof. split; vm_compute; reflexivity. Qed.
+Example C06_ex_object_insert :                   (* a container value under a new key between b and e; replacing a *)
+  object_insert_w (enc ex_doc) (ex_k 99) (enc (VArr [ex_one; VNull])) false [7] =
+  Ok ([7] ++ enc (VObj [(ex_k 97, VNull);
+                        (ex_k 98, VArr [VNull; VObj [(ex_k 99, VNull); (ex_k 100, ex_one)]]);
+                        (ex_k 99, VArr [ex_one; VNull]);
+                        (ex_k 101, VObj [(ex_k 102, VNull); (ex_k 103, VArr [VObj [(ex_k 104, VNull)]])])]))
+  /\ object_insert_w (enc ex_doc) (ex_k 97) (enc ex_one) false [7] = Err EDupKey
+  /\ object_insert_w (enc ex_doc) (ex_k 97) (enc ex_one) true [7] =
+     Ok ([7] ++ enc (VObj [(ex_k 97, ex_one);
+                           (ex_k 98, VArr [VNull; VObj [(ex_k 99, VNull); (ex_k 100, ex_one)]]);
+                           (ex_k 101, VObj [(ex_k 102, VNull); (ex_k 103, VArr [VObj [(ex_k 104, VNull)]])])])).
+Proof. repeat split; vm_compute; reflexivity. Qed.
+Example C06_object_insert_bytes_hyp_ok :         (* the size hypothesis of C06_object_insert_bytes is satisfiable *)
+  forall y, object_insert_t ex_doc (ex_k 99) (VArr [ex_one; VNull]) false = Ok y -> wf_size y = true.
+Proof. intros y H. vm_compute in H. injection H as <-. vm_compute. reflexivity. Qed.
+Example C06_ex_object_delete_pick :
+  object_delete_w (enc ex_doc) [ex_k 98; ex_k 122] [] = Ok (enc (VObj [(ex_k 97, VNull); (ex_k 101, VObj [(ex_k 102, VNull); (ex_k 103, VArr [VObj [(ex_k 104, VNull)]])])]))
+  /\ object_pick_w (enc ex_doc) [ex_k 98; ex_k 122] [9] = Ok ([9] ++ enc (VObj [(ex_k 98, VArr [VNull; VObj [(ex_k 99, VNull); (ex_k 100, ex_one)]])]))
+  /\ object_pick_w (enc (VArr [ex_one])) [ex_k 98] [9] = Err EInvalidObject.
+Proof. repeat split; vm_compute; reflexivity. Qed.
+(* ---- END edit2 ---- *)
